@@ -133,7 +133,7 @@ func c12Run(t *testing.T, p c12Plan) (res vfResult) {
 			}
 		}
 		synctest.Wait()
-		if ok, why := c12FileMatches(r.statePath, []map[string]string{m.summary()}); !ok {
+		if ok, why := c12FileMatches(vfPathOf(r), []map[string]string{m.summary()}); !ok {
 			res.failf("stale-after-return", "after the setup commands returned: %s", why)
 			return
 		}
@@ -209,7 +209,7 @@ func c12Run(t *testing.T, p c12Plan) (res vfResult) {
 				if len(parked) > 1 {
 					overlapped = true
 				}
-				if ok, why := c12FileMatches(r.statePath, allowed); !ok {
+				if ok, why := c12FileMatches(vfPathOf(r), allowed); !ok {
 					sig := "crash-point-bad-snapshot"
 					if strings.Contains(why, "not a complete snapshot") {
 						sig = "crash-point-truncated"
@@ -244,7 +244,7 @@ func c12Run(t *testing.T, p c12Plan) (res vfResult) {
 					var rerr error
 					removed := ""
 					for start := 0; start < 3 && rerr == nil; start++ { // the next start, the one after it, and one after a command
-						nr := NewRouter(img + "/r.state")
+						nr := vfNewRouter(img + "/r.state")
 						rerr = nr.RestoreLastSavedState()
 						gl := map[string]string{}
 						for n, row := range vfRealList(nr) {
@@ -275,12 +275,9 @@ func c12Run(t *testing.T, p c12Plan) (res vfResult) {
 							removed = names[0]
 							names = names[1:]
 						}
-						nr.withWriteLock(func() error { // the restarted process goes away again (without rewriting the image)
-							for _, n := range names {
-								nr.services.Get(n).Dispose()
-							}
-							return nil
-						})
+						for _, n := range names { // the restarted process goes away again (without rewriting the image)
+							nr.services.Get(n).Dispose()
+						}
 					}
 					sc.mu.Lock()
 					sc.off = false
@@ -358,7 +355,7 @@ func c12Run(t *testing.T, p c12Plan) (res vfResult) {
 				}
 			}
 			synctest.Wait()
-			if ok, why := c12FileMatches(r.statePath, []map[string]string{m.summary()}); !ok {
+			if ok, why := c12FileMatches(vfPathOf(r), []map[string]string{m.summary()}); !ok {
 				sig := "stale-after-return"
 				if len(group) > 1 {
 					sig = "stale-after-overlap"
